@@ -6,9 +6,12 @@
    library): after a put / delete on a well-formed bucket, the same transaction's lookups answer what the
    reference map answers after that operation -- for every key, every tree shape, every mix of materialised
    nodes and mapped pages (C07_read_own_put / C07_read_own_delete).
-   Not proved: the same for cursors over the overlay (scans / seeks inside a write transaction) and after
-   rebalance; that is compared against the extracted reference after every single operation on every run
-   (level: translation validation for that half). *)
+   and, through nested buckets and after ANY prefix of the transaction's operations (C07_tx_reads, engine model):
+   a lookup anywhere in the bucket tree sees exactly the effect of the operations done so far -- own puts, own deletes,
+   buckets created or deleted in this transaction at any depth -- on top of the committed state, with the library's error
+   for a path that is not a bucket.
+   Not proved: the same for CURSORS over the overlay (scans / seeks / ranges inside a write transaction); that is compared
+   against the extracted reference after every single operation on every run (translation validation for that half). *)
 From Coq Require Import List NArith.
 From Jamm Require Import Bytes Codec Tree Spec Cursor CursorFacts.
 Import ListNotations.
@@ -49,3 +52,13 @@ Theorem C07_lookup_is_reference : forall d b l k,
   Engine.b_lookup d b k = Engine.Ok (Spec.alookup k (EngineFacts.assoc l)).
 Proof. exact EngineModifyFacts.b_lookup_refines. Qed.
 Print Assumptions C07_lookup_is_reference.
+
+(* ---- point reads at any time inside a write transaction, anywhere in the nested bucket tree ---- *)
+From Jamm Require EngineAbs EnginePathFacts EngineTxReads.
+Theorem C07_tx_reads : forall st ops root' s', EnginePathFacts.db_pages_wf st ->
+  Forall (EnginePathFacts.op_ok (Engine.d_disk st)) ops ->
+  EnginePathFacts.tx_fold st ops (Engine.root_bucket st, Engine.begin_w st) = Engine.Ok (root', s') ->
+  forall path k, EngineTxReads.rd_matches k (EngineTxReads.ref_lookup path (EngineAbs.sem_tx ops (EngineAbs.abs_db st)) k)
+                                           (EngineTxReads.ovl_lookup (Engine.d_disk st) root' path k).
+Proof. exact EngineTxReads.tx_reads. Qed.
+Print Assumptions C07_tx_reads.
